@@ -487,10 +487,50 @@ def scopeOk (Γ : List Name) (Δ : Option (List Name)) : IR → Bool
     | some D => scopeOk D none a
     | none => false
 
-/-! ## Inlining the bindings the CSE renderer introduced -/
+/-! ## Inlining the bindings the CSE renderer introduced
 
-/-- plain (not capture-avoiding) substitution of `v` for the value-scope variable `x`; aggregation nodes are left alone
-(`substOk` refuses them) -/
+Two kinds of lifted binding: `(Let eval __cse_N v b)` binds in the value scope, `(AggLet __cse_N False v b)` in the aggregation
+scope.  `agg_capability` (the pseudo-variable `AggFilter`, `AggLet`… re-bind in `renderable_bindings` so that an aggregation
+stays below them) is modelled by what it stands for: `usesAgg v` — the value of `v` depends on the aggregation scope `A` — and
+such a `v` may not be substituted across a node that changes `A` (`aggFilter`, `aggLet`, a `StreamAgg` query). -/
+
+/-- every name occurring in a term: references and binders -/
+def names : IR → List Name
+  | .ref y => [y]
+  | .i32 _ | .i64 _ | .f32 _ | .f64 _ | .str _ | .bool _ | .na _ | .anil _ | .snil | .tnil => []
+  | .cast a _ | .ascribe a _ | .isNA a | .un _ a | .arrayLen a | .toArray a | .toStream a | .getField a _ | .getTupleElement a _
+  | .toSet a | .toDict a | .agg _ a => names a
+  | .bin _ a b | .cmp _ a b | .acons a b | .arrayRef a b | .scons _ a b | .insertField a _ b | .tcons a b | .dictGet a b
+  | .aggFilter a b => names a ++ names b
+  | .ite a b c => names a ++ names b ++ names c
+  | .let_ x a b | .streamMap x a b | .streamFilter x a b | .streamAgg x a b | .aggLet x a b => x :: (names a ++ names b)
+  | .streamFold acc w a z b => acc :: w :: (names a ++ names z ++ names b)
+  | .streamScan acc w a z b => acc :: w :: (names a ++ names z ++ names b)
+
+
+/-- does the value of the term depend on the ambient aggregation scope (an aggregation node not enclosed by a `StreamAgg` of
+the term itself)?  This is `agg_capability ∈ free_vars` -/
+def usesAgg : IR → Bool
+  | .agg .. | .aggLet .. | .aggFilter .. => true
+  | .streamAgg _ a _ => usesAgg a
+  | .i32 _ | .i64 _ | .f32 _ | .f64 _ | .str _ | .bool _ | .na _ | .ref _ | .anil _ | .snil | .tnil => false
+  | .cast a _ | .ascribe a _ | .isNA a | .un _ a | .arrayLen a | .toArray a | .toStream a | .getField a _ | .getTupleElement a _
+  | .toSet a | .toDict a => usesAgg a
+  | .bin _ a b | .cmp _ a b | .let_ _ a b | .acons a b | .arrayRef a b | .streamMap _ a b | .streamFilter _ a b
+  | .scons _ a b | .insertField a _ b | .tcons a b | .dictGet a b => usesAgg a || usesAgg b
+  | .ite a b c | .streamFold _ _ a b c | .streamScan _ _ a b c => usesAgg a || usesAgg b || usesAgg c
+
+/-- the variables a binder must not rebind between the binding site and a use of the bound expression: its free variables
+(aggregation-free expression), or — coarser, for an expression with aggregation nodes, whose aggregation-scope children also
+read the value scope through `StreamAgg` — every name occurring in it -/
+def capt (v : IR) : List Name := if aggFree v then fv v else names v
+
+/-- `x` does not occur free in `t` (coarse version for terms with aggregation nodes: does not occur at all) -/
+def notFree (x : Name) (t : IR) : Bool := if aggFree t then decide (x ∉ fv t) else decide (x ∉ names t)
+
+/-- plain (not capture-avoiding) substitution of `v` for the VALUE-scope variable `x`.  Aggregation-scope children (the
+condition of an `AggFilter`, the value of an `AggLet`, aggregator arguments) and `StreamAgg` queries are left alone: `x` is not
+visible / must not occur there (`substOk`) -/
 def subst (x : Name) (v : IR) : IR → IR
   | .ref y => if y = x then v else .ref y
   | .i32 n => .i32 n | .i64 n => .i64 n | .f32 n => .f32 n | .f64 n => .f64 n
@@ -522,38 +562,92 @@ def subst (x : Name) (v : IR) : IR → IR
   | .toSet a => .toSet (subst x v a)
   | .toDict a => .toDict (subst x v a)
   | .dictGet d k => .dictGet (subst x v d) (subst x v k)
-  | .streamAgg y a q => .streamAgg y a q
-  | .aggLet y e b => .aggLet y e b
-  | .aggFilter c b => .aggFilter c b
+  | .streamAgg y a q => .streamAgg y (subst x v a) q
+  | .aggLet y e b => .aggLet y e (subst x v b)
+  | .aggFilter c b => .aggFilter c (subst x v b)
   | .agg op a => .agg op a
 
-/-- `subst x v t` is capture-avoiding when `F = fv v`: on the way to a free occurrence of `x` no binder of `t` binds a
-variable of `F`; and `t` has no aggregation node -/
-def substOk (x : Name) (F : List Name) : IR → Bool
+/-- `subst x v t` means what it should when `F = capt v` and `dep = usesAgg v`:
+* on the way to a free occurrence of `x` no binder of `t` binds a variable of `F`;
+* if the value of `v` depends on the aggregation scope (`dep`), `x` does not occur below a node that changes that scope — the
+  body of an `AggFilter` or `AggLet` — (the `agg_capability` rule);
+* `x` does not occur inside a `StreamAgg` query (a block: nothing bound outside is referenced inside by the renderer). -/
+def substOk (x : Name) (F : List Name) (dep : Bool) : IR → Bool
   | .ref _ | .i32 _ | .i64 _ | .f32 _ | .f64 _ | .str _ | .bool _ | .na _ | .anil _ | .snil | .tnil => true
   | .cast a _ | .ascribe a _ | .isNA a | .un _ a | .arrayLen a | .toArray a | .toStream a | .getField a _ | .getTupleElement a _
-  | .toSet a | .toDict a => substOk x F a
+  | .toSet a | .toDict a => substOk x F dep a
   | .bin _ a b | .cmp _ a b | .acons a b | .arrayRef a b | .scons _ a b | .insertField a _ b | .tcons a b | .dictGet a b =>
-    substOk x F a && substOk x F b
-  | .ite a b c => substOk x F a && substOk x F b && substOk x F c
+    substOk x F dep a && substOk x F dep b
+  | .ite a b c => substOk x F dep a && substOk x F dep b && substOk x F dep c
   | .let_ y e b | .streamMap y e b | .streamFilter y e b =>
-    substOk x F e && aggFree b && (decide (y = x) || decide (x ∉ fv b) || (decide (y ∉ F) && substOk x F b))
-  | .streamFold acc w a z b =>
-    substOk x F a && substOk x F z && aggFree b &&
-      (decide (acc = x ∨ w = x) || decide (x ∉ fv b) || (decide (acc ∉ F) && decide (w ∉ F) && substOk x F b))
-  | .streamScan acc w a z b =>
-    substOk x F a && substOk x F z && aggFree b &&
-      (decide (acc = x ∨ w = x) || decide (x ∉ fv b) || (decide (acc ∉ F) && decide (w ∉ F) && substOk x F b))
-  | .streamAgg .. | .aggLet .. | .aggFilter .. | .agg .. => false
+    substOk x F dep e && (decide (y = x) || notFree x b || (decide (y ∉ F) && substOk x F dep b))
+  | .streamFold acc w a z b | .streamScan acc w a z b =>
+    substOk x F dep a && substOk x F dep z &&
+      (decide (acc = x ∨ w = x) || notFree x b || (decide (acc ∉ F) && decide (w ∉ F) && substOk x F dep b))
+  | .streamAgg _ a q => substOk x F dep a && decide (x ∉ names q)
+  | .aggLet _ _ b | .aggFilter _ b => decide (x ∉ names b) || (!dep && substOk x F dep b)
+  | .agg _ _ => true
+
+/-- substitution of `v` for the AGGREGATION-scope variable `x` (an `AggLet` binding): only aggregation-scope children of the
+ambient query see `x`; there it is an ordinary value-scope substitution in the element environment -/
+def substA (x : Name) (v : IR) : IR → IR
+  | .ref y => .ref y
+  | .i32 n => .i32 n | .i64 n => .i64 n | .f32 n => .f32 n | .f64 n => .f64 n
+  | .str s => .str s | .bool b => .bool b | .na t => .na t | .anil t => .anil t | .snil => .snil | .tnil => .tnil
+  | .cast a t => .cast (substA x v a) t
+  | .ascribe a t => .ascribe (substA x v a) t
+  | .isNA a => .isNA (substA x v a)
+  | .un op a => .un op (substA x v a)
+  | .bin op a b => .bin op (substA x v a) (substA x v b)
+  | .cmp op a b => .cmp op (substA x v a) (substA x v b)
+  | .ite c t e => .ite (substA x v c) (substA x v t) (substA x v e)
+  | .let_ y e b => .let_ y (substA x v e) (substA x v b)
+  | .acons h tl => .acons (substA x v h) (substA x v tl)
+  | .arrayRef a i => .arrayRef (substA x v a) (substA x v i)
+  | .arrayLen a => .arrayLen (substA x v a)
+  | .toArray a => .toArray (substA x v a)
+  | .toStream a => .toStream (substA x v a)
+  | .streamMap y a b => .streamMap y (substA x v a) (substA x v b)
+  | .streamFilter y a b => .streamFilter y (substA x v a) (substA x v b)
+  | .streamFold acc w a z b => .streamFold acc w (substA x v a) (substA x v z) (substA x v b)
+  | .streamScan acc w a z b => .streamScan acc w (substA x v a) (substA x v z) (substA x v b)
+  | .scons f e rest => .scons f (substA x v e) (substA x v rest)
+  | .getField o f => .getField (substA x v o) f
+  | .insertField old f e => .insertField (substA x v old) f (substA x v e)
+  | .tcons e rest => .tcons (substA x v e) (substA x v rest)
+  | .getTupleElement o i => .getTupleElement (substA x v o) i
+  | .toSet a => .toSet (substA x v a)
+  | .toDict a => .toDict (substA x v a)
+  | .dictGet d k => .dictGet (substA x v d) (substA x v k)
+  | .streamAgg y a q => .streamAgg y (substA x v a) q
+  | .aggLet y e b => .aggLet y (subst x v e) (if y = x then b else substA x v b)
+  | .aggFilter c b => .aggFilter (subst x v c) (substA x v b)
+  | .agg op a => .agg op (subst x v a)
+
+/-- `substA x v t` means what it should (`F = fv v`, `v` aggregation-free): in every aggregation-scope child the value-scope
+substitution is capture-avoiding, and no `AggLet` on the way rebinds a variable of `v` -/
+def substAOk (x : Name) (F : List Name) : IR → Bool
+  | .ref _ | .i32 _ | .i64 _ | .f32 _ | .f64 _ | .str _ | .bool _ | .na _ | .anil _ | .snil | .tnil => true
+  | .cast a _ | .ascribe a _ | .isNA a | .un _ a | .arrayLen a | .toArray a | .toStream a | .getField a _ | .getTupleElement a _
+  | .toSet a | .toDict a => substAOk x F a
+  | .bin _ a b | .cmp _ a b | .acons a b | .arrayRef a b | .scons _ a b | .insertField a _ b | .tcons a b | .dictGet a b
+  | .let_ _ a b | .streamMap _ a b | .streamFilter _ a b => substAOk x F a && substAOk x F b
+  | .ite a b c | .streamFold _ _ a b c | .streamScan _ _ a b c => substAOk x F a && substAOk x F b && substAOk x F c
+  | .streamAgg _ a _ => substAOk x F a
+  | .aggLet y e b => aggFree e && substOk x F false e && (decide (y = x) || (decide (y ∉ F) && substAOk x F b))
+  | .aggFilter c b => aggFree c && substOk x F false c && substAOk x F b
+  | .agg _ a => aggFree a && substOk x F false a
 
 /-- the names `CSEAnalysisPass.uid` generates -/
 def isCse : Name → Bool
   | .cse _ => true
   | .user _ => false
 
-/-- replace every `(Let eval __cse_N v b)` by `b[v/__cse_N]`, innermost first -/
+/-- replace every `(Let eval __cse_N v b)` by `b[v/__cse_N]` and every `(AggLet __cse_N False v b)` by `b` with `v` substituted
+in its aggregation-scope children, innermost first -/
 def inlineCse : IR → IR
   | .let_ x v b => if isCse x then subst x (inlineCse v) (inlineCse b) else .let_ x (inlineCse v) (inlineCse b)
+  | .aggLet x v b => if isCse x then substA x (inlineCse v) (inlineCse b) else .aggLet x (inlineCse v) (inlineCse b)
   | .ref y => .ref y
   | .i32 n => .i32 n | .i64 n => .i64 n | .f32 n => .f32 n | .f64 n => .f64 n
   | .str s => .str s | .bool b => .bool b | .na t => .na t | .anil t => .anil t | .snil => .snil | .tnil => .tnil
@@ -581,40 +675,28 @@ def inlineCse : IR → IR
   | .toSet a => .toSet (inlineCse a)
   | .toDict a => .toDict (inlineCse a)
   | .dictGet d k => .dictGet (inlineCse d) (inlineCse k)
-  | .streamAgg y a q => .streamAgg y (inlineCse a) q
-  | .aggLet y e b => .aggLet y e b
-  | .aggFilter c b => .aggFilter c b
-  | .agg op a => .agg op a
+  | .streamAgg y a q => .streamAgg y (inlineCse a) (inlineCse q)
+  | .aggFilter c b => .aggFilter (inlineCse c) (inlineCse b)
+  | .agg op a => .agg op (inlineCse a)
 
-/-- every substitution `inlineCse` performs is capture-avoiding and touches no aggregation node; the query of a `StreamAgg`
-and everything below an aggregation node must be free of `__cse` bindings to be accepted (they are then left untouched) -/
-def cseLetFree : IR → Bool
-  | .let_ x v b => !isCse x && cseLetFree v && cseLetFree b
-  | .ref _ | .i32 _ | .i64 _ | .f32 _ | .f64 _ | .str _ | .bool _ | .na _ | .anil _ | .snil | .tnil => true
-  | .cast a _ | .ascribe a _ | .isNA a | .un _ a | .arrayLen a | .toArray a | .toStream a | .getField a _ | .getTupleElement a _
-  | .toSet a | .toDict a | .agg _ a => cseLetFree a
-  | .bin _ a b | .cmp _ a b | .acons a b | .arrayRef a b | .scons _ a b | .insertField a _ b | .tcons a b | .dictGet a b
-  | .streamMap _ a b | .streamFilter _ a b | .streamAgg _ a b | .aggFilter a b => cseLetFree a && cseLetFree b
-  | .aggLet x a b => !isCse x && cseLetFree a && cseLetFree b
-  | .ite a b c | .streamFold _ _ a b c | .streamScan _ _ a b c => cseLetFree a && cseLetFree b && cseLetFree c
-
+/-- every substitution `inlineCse` performs means what it should (`substOk` / `substAOk` on the inlined pieces) -/
 def inlineOk : IR → Bool
   | .let_ x v b =>
     inlineOk v && inlineOk b &&
-      (!isCse x || (aggFree (inlineCse v) && aggFree (inlineCse b) && substOk x (fv (inlineCse v)) (inlineCse b)))
+      (!isCse x || substOk x (capt (inlineCse v)) (usesAgg (inlineCse v)) (inlineCse b))
+  | .aggLet x v b =>
+    inlineOk v && inlineOk b &&
+      (!isCse x || (aggFree (inlineCse v) && substAOk x (fv (inlineCse v)) (inlineCse b)))
   | .ref _ | .i32 _ | .i64 _ | .f32 _ | .f64 _ | .str _ | .bool _ | .na _ | .anil _ | .snil | .tnil => true
   | .cast a _ | .ascribe a _ | .isNA a | .un _ a | .arrayLen a | .toArray a | .toStream a | .getField a _ | .getTupleElement a _
-  | .toSet a | .toDict a => inlineOk a
+  | .toSet a | .toDict a | .agg _ a => inlineOk a
   | .bin _ a b | .cmp _ a b | .acons a b | .arrayRef a b | .scons _ a b | .insertField a _ b | .tcons a b | .dictGet a b
-  | .streamMap _ a b | .streamFilter _ a b => inlineOk a && inlineOk b
+  | .streamMap _ a b | .streamFilter _ a b | .streamAgg _ a b | .aggFilter a b => inlineOk a && inlineOk b
   | .ite a b c | .streamFold _ _ a b c | .streamScan _ _ a b c => inlineOk a && inlineOk b && inlineOk c
-  | .streamAgg _ a q => inlineOk a && cseLetFree q
-  | .aggLet _ v b => cseLetFree v && cseLetFree b
-  | .aggFilter c b => cseLetFree c && cseLetFree b
-  | .agg _ a => cseLetFree a
 
 /-- The verified translation validator: `rendered` (the CSE renderer's output) against `plain` (the same DAG printed as a
-tree, every shared node repeated).  `validate_sound` (Props/C35.lean): acceptance implies equal value in every environment. -/
+tree, every shared node repeated).  `validate_sound` (Props/C35.lean): acceptance implies equal value in every value scope
+and every aggregation scope. -/
 def validate (rendered plain : IR) : Bool := inlineOk rendered && decide (inlineCse rendered = plain)
 
 /-! ## Binder statistics of a rendered program -/
@@ -667,19 +749,6 @@ def branchLocal : IR → Bool
 `abstractAt x v F t`: every occurrence of the subterm `v` in `t` is replaced by `(Ref x)`, except below a binder that rebinds one
 of the variables `F` of `v` (there the occurrence means something else) and inside aggregation nodes.  Binding `x` to `v` in a
 `Let` immediately above `t` — the bind site — is then meaning-preserving (`Props/C35.lean::cse_step_preserves`). -/
-
-/-- every name occurring in a term: references and binders -/
-def names : IR → List Name
-  | .ref y => [y]
-  | .i32 _ | .i64 _ | .f32 _ | .f64 _ | .str _ | .bool _ | .na _ | .anil _ | .snil | .tnil => []
-  | .cast a _ | .ascribe a _ | .isNA a | .un _ a | .arrayLen a | .toArray a | .toStream a | .getField a _ | .getTupleElement a _
-  | .toSet a | .toDict a | .agg _ a => names a
-  | .bin _ a b | .cmp _ a b | .acons a b | .arrayRef a b | .scons _ a b | .insertField a _ b | .tcons a b | .dictGet a b
-  | .aggFilter a b => names a ++ names b
-  | .ite a b c => names a ++ names b ++ names c
-  | .let_ x a b | .streamMap x a b | .streamFilter x a b | .streamAgg x a b | .aggLet x a b => x :: (names a ++ names b)
-  | .streamFold acc w a z b => acc :: w :: (names a ++ names z ++ names b)
-  | .streamScan acc w a z b => acc :: w :: (names a ++ names z ++ names b)
 
 def abstractAt (x : Name) (v : IR) (F : List Name) : IR → IR
   | .i32 n => if IR.i32 n = v then .ref x else .i32 n
